@@ -111,7 +111,13 @@ func permuteItems(items []SDLItem, r *rand.Rand, involved []string) tsVariant {
 	for _, idx := range perm {
 		f := r.Intn(nfiles)
 		// make files distinguishable: a comment line before each item
-		fmt.Fprintf(&texts[f], "# item\n%s\n", items[idx].Text)
+		// (every third item is preceded by a byte order mark: files put together from pieces keep the
+		// marks of their pieces, and the mark is ignored wherever it stands between tokens)
+		bom := ""
+		if idx%3 == 1 {
+			bom = "\ufeff"
+		}
+		fmt.Fprintf(&texts[f], "# item\n%s%s\n", bom, items[idx].Text)
 		for _, nm := range items[idx].Names {
 			for _, w := range involved {
 				if nm == w {
@@ -310,8 +316,16 @@ func checkTypeSystem(c *core.Ctx, orderProp bool) {
 		}
 		c.SetExtra("small_scope_type_systems", len(small))
 	} else {
+		if handSet == nil {
+			isHand("")
+		}
 		for _, its := range handOrderItems {
 			handItems = its
+			var base strings.Builder
+			for _, it := range its {
+				base.WriteString(it.Text + "\n")
+			}
+			handSet[strings.TrimSpace(base.String())] = true // no generator intent: the specification decides
 			addCase(nil, nil, "")
 		}
 		handItems = nil
@@ -321,7 +335,7 @@ func checkTypeSystem(c *core.Ctx, orderProp bool) {
 		if len(inf.loaded) == 0 {
 			continue
 		}
-		if inf.fault == nil && strings.HasPrefix(inf.sdl, "") && !inf.loaded[0].OK && inf.variants != nil && !isHand(inf.sdl) {
+		if inf.fault == nil && inf.sdl != "" && !inf.loaded[0].OK && inf.variants != nil && !isHand(inf.sdl) {
 			intentBad++
 			c.SetExtra(fmt.Sprintf("intent_valid_rejected_%d", intentBad), map[string]string{"sdl": inf.sdl, "err": inf.loaded[0].Err})
 		}
@@ -434,6 +448,10 @@ var handOrderItems = [][]SDLItem{
 	ordItems("schema { query: Root mutation: Mut }", "extend schema @tag", "directive @tag on SCHEMA | OBJECT", "type Root @tag { a: Int }", "extend type Mut { m: Int }"),
 	ordItems("extend enum Color { BLUE }", "extend enum Color { GREEN }", "enum Color { RED }", "type Query { c(d: Color = GREEN): Color }", "extend input Filter { c: Color = BLUE }", "extend type Query { f(x: Filter): Int }"),
 	ordItems("extend scalar Date @tag", "scalar Date", "directive @tag repeatable on SCALAR", "extend scalar Date @tag", "type Query { d: Date }"),
+	// a type that exists through extensions only, and the extensions disagree about its kind
+	ordItems("extend type Ghost { x: Int }", "extend interface Ghost { y: Int }", "type Query { a: Int }"),
+	ordItems("type Query { g: Ghost }", "extend union Ghost = Query", "extend enum Ghost { A }", "extend union Ghost = Other", "type Other { o: Int }"),
+	ordItems("extend input Ghost { x: Int }", "extend type Ghost { y: Int }", "extend input Ghost { z: Int }", "type Query { a(g: Ghost): Int }"),
 	ordItems("extend type Query { later: Later }", "extend type Later { x: Int }", "extend type Query { u: U }", "extend union U = Later", "extend type Query { first: Int }"),
 }
 
@@ -460,6 +478,7 @@ var smallTypePool = []string{
 	"union U = T | V",
 	"extend union U = Missing",
 	"extend type T { e: Int }",
+	"extend interface T { q: Int }",
 	"extend type T { a: Int }",
 	"extend type T implements I",
 	"extend interface I { c: [T!] }",
